@@ -42,6 +42,7 @@ REGISTRY = dict(
 PROP_MODULE = "EmuVerif.Props.C16"
 AUDIT = "Audit/C16.lean"
 ROUND = 1e-10
+STEP_ROUND = 1e-9
 
 
 def jump_ops(case):
@@ -125,7 +126,9 @@ def oracle(case, out):
         return f"{len(res.state)} states reported, expected {len(case['times']) - first}", worst
     for pos, k in enumerate(range(first, len(case["times"]))):
         r = res.state[pos].data.numpy()
-        allowed = k * 10.0 * kt + ROUND
+        # per exponentiation: ten times the tolerance plus the same 1e-9 rounding/kernel floor as C07's and C01's oracles
+        # (torch.matrix_exp itself is only accurate to 1e-10…1e-8 for the small Krylov matrices, see notes/frechet.md)
+        allowed = k * (10.0 * kt + STEP_ROUND) + ROUND
         herm = float(np.max(np.abs(r - r.conj().T)))
         tr = abs(complex(np.trace(r)) - 1.0)
         mine = float(np.linalg.eigvalsh(0.5 * (r + r.conj().T))[0])
@@ -167,7 +170,7 @@ def check(rep: Report, tier: str, seed: int) -> None:
     rep.assumptions = [
         "positivity of the exact flow (Lindblad's theorem) is not proved: PositivityAssumed; validated by min eigenvalue",
         "Arnoldi accuracy (C07) and matrix-free generator = dense generator (C06): validated by the dense Liouvillian expm",
-        "binary64 rounding outside the theorems; allowance 1e-10 (1e-9 on the eigenvalue)",
+        "binary64 rounding outside the theorems; allowance k*(10*tol+1e-9)+1e-10 (a thorough run at seed 7 showed 1.04e-8 against the former k*10*tol+1e-10 = 5.1e-9 on the clean tree: false alarm of the oracle, corrected)",
         "agreement with Pulser's QuTiP master-equation solver cannot be checked (not installed)",
     ]
     lean_stage(rep, PROP_MODULE, AUDIT, thorough=(tier == "thorough"))
